@@ -1,6 +1,7 @@
 import Nsq.Model.Line
 import Nsq.Model.Gate
 import Nsq.Model.GateRegex
+import Nsq.Model.AuthQuery
 /-!
 Driver for engine `gate` (property C11). One op per line in, one canonical line out.
 
@@ -16,6 +17,9 @@ Driver for engine `gate` (property C11). One op per line in, one canonical line 
   x <id>                                                        the client disconnects
   ia <grants> <topic-hex> <chan-hex>                            State.IsAllowed
   rx <pat-hex> <text-hex>                                       regexp family used by the harness
+  aq <authd-hex> <ip-hex> <tls> <cn-hex> <secret-hex> <method-hex>   auth.QueryAuthd: the request it builds (`HOST` stands for the server)
+  anyq <n> <start> <okbits>                                     auth.QueryAnyAuthd: servers asked, who answered
+  ttlq <ttl>                                                    Expires - now, rounded to seconds
 
   ans    := E | A:<ttl>:<identity-hex>:<url-hex>:<grants>
   grants := ~ | grant(;grant)*         grant := <topic-hex>/<list>/<list>      list := ~ | hex(,hex)*
@@ -238,6 +242,31 @@ def stepLine (st : DState) (line : String) : DState × String :=
     | some p, some t =>
       (st, s!"c={b01 (Nsq.Model.GateRegex.compiles p)} m={b01 (Nsq.Model.GateRegex.isMatch p t)}")
     | _, _ => (st, "bad-op")
+  | ["aq", ha, hi, tls, hc, hs, hm] =>
+    match unhex ha, unhex hi, unhex hc, unhex hs, unhex hm with
+    | some authd, some ip, some cn, some secret, some method =>
+      let r := Nsq.Model.AuthQuery.buildRequest authd ip cn secret (tls == "1") method
+      let pre := Nsq.Model.Names.ascii "http://HOST"
+      let uri := if pre.isPrefixOf r.url then r.url.drop pre.length else r.url
+      -- what the server's url.ParseQuery makes of the raw query (everything after the first `?`)
+      let rawq := (uri.dropWhile (· != 63)).drop 1
+      let pairs := if r.post then r.form else (Nsq.Model.HttpApi.parseQuery rawq).getD []
+      let showP := ",".intercalate (pairs.map (fun p => s!"{hex p.1}={hex p.2}"))
+      -- net/http sends `/` for a URL without a path
+      let path := if r.post then uri else uri.takeWhile (· != 63)
+      (st, s!"P={b01 r.post} U={hex (if path.isEmpty then [47] else path)} F={if showP.isEmpty then "-" else showP}")
+    | _, _, _, _, _ => (st, "bad-op")
+  | ["anyq", n, start, bits] =>
+    match n.toNat?, start.toNat? with
+    | some n, some start =>
+      let ok (i : Nat) : Bool := (bits.toList.drop i).head? == some '1'
+      let r := Nsq.Model.AuthQuery.queryAny n start ok
+      (st, s!"asked={if r.1.isEmpty then "-" else ",".intercalate (r.1.map toString)} got={match r.2 with | some i => toString i | none => "none"}")
+    | _, _ => (st, "bad-op")
+  | ["ttlq", t] =>
+    match t.toInt? with
+    | some ttl => (st, s!"s={(Nsq.Model.AuthQuery.ttlNs ttl + 500000000).fdiv 1000000000}")
+    | none => (st, "bad-op")
   | _ => (st, "bad-op")
 
 partial def loop (h : IO.FS.Stream) (out : IO.FS.Stream) (st : DState) : IO Unit := do
